@@ -974,3 +974,188 @@ Proof.
     apply run_inv; auto.
   - apply Permutation_flat_map. apply Permutation_sym, Permutation_rev.
 Qed.
+
+(* ================================================================== order *)
+Lemma index_app_notin x l1 l2 : ~ In x l1 -> index x (l1 ++ l2) = length l1 + index x l2.
+Proof.
+  induction l1 as [|a l1 IH]; cbn; auto. intros H.
+  destruct (Nat.eqb_spec x a) as [->|Hne]; [tauto|]. rewrite IH; tauto.
+Qed.
+
+Lemma index_head x l : index x (x :: l) = 0.
+Proof. cbn. rewrite Nat.eqb_refl. auto. Qed.
+
+Lemma NoDup_app_disj {A} (l1 l2 : list A) x : NoDup (l1 ++ l2) -> In x l1 -> In x l2 -> False.
+Proof.
+  induction l1 as [|b l1 IH]; cbn; [tauto|]. intros Hn [->|H1] H2.
+  - apply NoDup_cons_iff in Hn. destruct Hn as [Hn _]. apply Hn. apply in_or_app. auto.
+  - apply NoDup_cons_iff in Hn. destruct Hn as [_ Hn]. auto.
+Qed.
+
+Lemma index_sorted_aux pre l : NoDup (pre ++ l) ->
+  StronglySorted (fun x y => index x (pre ++ l) < index y (pre ++ l)) l.
+Proof.
+  revert pre. induction l as [|a l IH]; intros pre Hn; constructor.
+  - specialize (IH (pre ++ [a])). rewrite <- app_assoc in IH. cbn in IH. apply IH. exact Hn.
+  - apply Forall_forall. intros y Hy.
+    assert (Ha : ~ In a pre).
+    { intros H. apply NoDup_remove_2 in Hn. apply Hn. apply in_or_app. auto. }
+    assert (Hy1 : ~ In y pre).
+    { intros H. apply (NoDup_app_disj _ _ y Hn H). right. exact Hy. }
+    assert (Hy2 : y <> a).
+    { intros ->. apply NoDup_remove_2 in Hn. apply Hn. apply in_or_app. auto. }
+    rewrite !index_app_notin by auto. rewrite index_head. cbn [index].
+    destruct (Nat.eqb_spec y a); [contradiction|]. lia.
+Qed.
+
+Lemma index_sorted l : NoDup l -> StronglySorted (fun x y => index x l < index y l) l.
+Proof. intros H. apply (index_sorted_aux [] l H). Qed.
+
+Lemma req_seq_sorted W looked : wf_world W ->
+  StronglySorted (fun r1 r2 => lex_lt (rank W looked r1) (rank W looked r2)) (req_seq W looked).
+Proof.
+  intros HW. induction looked as [|s rest IH]; cbn [req_seq].
+  - constructor; constructor.
+  - apply (SS_flat_map _ (fun x y => index x (rev (w_sro W s)) < index y (rev (w_sro W s)))).
+    + apply index_sorted. apply NoDup_rev, HW.
+    + intros x _. apply (SS_map _ _ (cons x) _ IH). intros r1 r2 H. cbn [rank lex_lt]. right. auto.
+    + intros x y a b Hxy Ha Hb. apply in_map_iff in Ha, Hb.
+      destruct Ha as (a' & <- & _), Hb as (b' & <- & _). cbn [rank lex_lt]. left. exact Hxy.
+Qed.
+
+Lemma in_tag_lower (s n : nat) (L : ledger) te : In te (combine (seq s n) L) -> s <= fst te.
+Proof.
+  destruct te as [i e]. intros H. apply in_combine_l in H. apply in_seq in H. cbn. lia.
+Qed.
+
+Lemma tag_sorted_aux s (L : ledger) :
+  StronglySorted (fun a b : nat * entry => fst a < fst b) (combine (seq s (length L)) L).
+Proof.
+  revert s. induction L as [|e L IH]; intros s; cbn; constructor; auto.
+  apply Forall_forall. intros te H. apply in_tag_lower in H. cbn. lia.
+Qed.
+
+Lemma tag_sorted L : StronglySorted (fun a b => t_idx a < t_idx b) (tag L).
+Proof. apply tag_sorted_aux. Qed.
+
+Lemma in_bucket TL k te : In te (bucket TL k) -> In te TL /\ t_req te = fst k /\ t_prov te = snd k.
+Proof.
+  unfold bucket. intros H. apply filter_In in H. destruct H as [H1 H2]. apply skey_eqb_eq in H2.
+  destruct te as [i [k0 v]]. unfold t_req, t_prov. cbn in *. subst k0. auto.
+Qed.
+
+Lemma expected_sorted W L pord required : wf_world W -> NoDup pord ->
+  StronglySorted (precedes W required) (expected_tagged W L pord required).
+Proof.
+  intros HW Hp. unfold expected_tagged.
+  apply (SS_flat_map _ (fun r1 r2 => lex_lt (rank W required r1) (rank W required r2))).
+  - apply req_seq_sorted; auto.
+  - intros rq _. apply (SS_flat_map _ (fun q1 q2 : option spec => q1 <> q2)).
+    + apply NoDup_SS_neq; auto.
+    + intros q _. apply (SS_weaken (fun a b => t_idx a < t_idx b)).
+      * apply SS_filter. apply tag_sorted.
+      * intros a b Ha Hb Hlt. apply in_bucket in Ha, Hb. cbn [fst snd] in *.
+        right. split; [|right; auto]. destruct Ha as (_ & -> & _), Hb as (_ & -> & _). auto.
+    + intros q1 q2 a b Hne Ha Hb. apply in_bucket in Ha, Hb. cbn [fst snd] in *.
+      destruct Ha as (_ & Ra & Pa), Hb as (_ & Rb & Pb).
+      right. split; [congruence|left; congruence].
+  - intros r1 r2 a b Hlt Ha Hb. apply in_flat_map in Ha, Hb.
+    destruct Ha as (q1 & _ & Ha), Hb as (q2 & _ & Hb). apply in_bucket in Ha, Hb. cbn [fst snd] in *.
+    destruct Ha as (_ & Ra & _), Hb as (_ & Rb & _). unfold precedes. rewrite Ra, Rb. left. exact Hlt.
+Qed.
+
+(* the ordered answer: registries in the order of [rev ro]; per registry a sorted rearrangement
+   of that registry's applicable tagged ledger entries *)
+Lemma subs_exact_lemma : forall W, wf_world W -> forall (hs : list (list sop)) required p,
+  uncached_subscriptions W (map (run_reg W) hs) required p
+  = flat_map (fun h => map t_val (expected_tagged W (run_led h) (pord_of (run_reg W h) p) required)) (rev hs).
+Proof.
+  intros W HW hs required p. rewrite uncached_flat, <- map_rev, flat_map_map.
+  apply flat_map_ext. intros h. rewrite expected_vals. apply reg_answer_spec. apply run_inv; auto.
+Qed.
+
+Lemma subs_ordered_lemma : forall W, wf_world W ->
+  forall (hs : list (list sop)) required p, asked_ok W p ->
+  exists Es : list (list (nat * entry)),
+    uncached_subscriptions W (map (run_reg W) hs) required p = flat_map (map t_val) Es
+    /\ Forall2 (fun h E =>
+                  Permutation E (filter (fun te => applicable W required p (snd te)) (tag (run_led h)))
+                  /\ StronglySorted (precedes W required) E)
+               (rev hs) Es.
+Proof.
+  intros W HW hs required p Hp.
+  exists (map (fun h => expected_tagged W (run_led h) (pord_of (run_reg W h) p) required) (rev hs)).
+  split.
+  - rewrite subs_exact_lemma by auto. rewrite flat_map_map. reflexivity.
+  - induction (rev hs) as [|h l IH]; cbn; constructor; auto.
+    pose proof (run_inv W h HW) as I. split.
+    + apply (expected_perm W _ _ required p HW I Hp).
+    + apply expected_sorted; auto. eapply pord_NoDup; eauto.
+Qed.
+
+(* ================================================================== ledger refinement *)
+Lemma ledger_refinement_lemma : forall W, wf_world W -> forall (h : list sop),
+  let r := run_reg W h in let L := run_led h in
+  (forall k, sub_leaf r k = lvals L k)
+  /\ NoDup (map fst (subscribers r))
+  /\ (forall k l, In (k, l) (subscribers r) -> l <> [])
+  /\ Permutation (allSubscriptions r) L.
+Proof.
+  intros W HW h r L. pose proof (run_inv W h HW) as I. fold r L in I.
+  destruct I as [I1 I2 I3 I4 I5].
+  assert (Hne : forall k l, In (k, l) (subscribers r) -> l <> []).
+  { intros k l H. apply (I2 k). apply (In_aget skey_eqb skey_eqb_eq); auto. }
+  repeat split; auto.
+  unfold allSubscriptions.
+  (* every stored leaf is the ledger's bucket *)
+  assert (E1 : flat_map (fun kv : skey * list value => map (fun v => (fst kv, v)) (snd kv)) (subscribers r)
+               = flat_map (fun k => filter (fun e : entry => skey_eqb (fst e) k) L) (map fst (subscribers r))).
+  { rewrite flat_map_map. apply flat_map_ext_in. intros [k l] Hin. cbn [fst snd].
+    assert (Hl : l = lvals L k).
+    { rewrite <- I1, sub_leaf_leaf. unfold leaf. rewrite (In_aget skey_eqb skey_eqb_eq _ _ _ I3 Hin). auto. }
+    subst l. unfold lvals. clear. induction L as [|[k0 v0] L IH]; cbn; auto.
+    destruct (skey_eqb k0 k) eqn:E; cbn; auto. apply skey_eqb_eq in E. subst. f_equal. auto. }
+  rewrite E1. eapply Permutation_trans; [apply (bucket_perm (fun e : entry => fst e)); auto|].
+  rewrite filter_all; auto.
+  intros e He. apply existsb_exists. exists (fst e). split; [|apply skey_eqb_refl].
+  (* the key of a live entry is stored *)
+  assert (Hv : In (snd e) (lvals L (fst e))) by (apply In_lvals; auto; apply skey_eqb_refl).
+  rewrite <- I1, sub_leaf_leaf in Hv. unfold leaf in Hv.
+  destruct (aget skey_eqb (subscribers r) (fst e)) eqn:Eg; [|destruct Hv].
+  eapply (aget_Some_in_keys skey_eqb skey_eqb_eq); eauto.
+Qed.
+
+(* ================================================================== unsubscribe is exact *)
+Lemma unsubscribe_exact_lemma : forall W, wf_world W -> forall (h : list sop) req p ov,
+  let r := run_reg W h in
+  let k := (map conv req, p) in
+  (forall k', sub_leaf (unsubscribe W r req p ov) k'
+              = if skey_eqb k' k
+                then match ov with
+                     | None => []
+                     | Some v => filter (fun x => negb (v_eq x v)) (sub_leaf r k)
+                     end
+                else sub_leaf r k')
+  /\ adapters (unsubscribe W r req p ov) = adapters r.
+Proof.
+  intros W HW h req p ov r k. pose proof (run_inv W h HW) as I. fold r in I.
+  pose proof (unsubscribe_inv W r _ req p ov HW I) as I'. fold k in I'.
+  split.
+  - intros k'. rewrite (inv_leaf _ _ _ I'), lvals_unsub, <- !(inv_leaf _ _ _ I). destruct ov; reflexivity.
+  - destruct (unsubscribe_cases W r req p ov) as [[_ ->]|(_ & Fa & _)]; auto.
+Qed.
+
+(* ================================================================== handlers *)
+Lemma handlers_lemma : forall W r r' required,
+  subscribers r = subscribers r' ->
+  uncached_subscriptions W [r] required None = uncached_subscriptions W [r'] required None.
+Proof. intros W r r' required H. unfold uncached_subscriptions. cbn. rewrite H. reflexivity. Qed.
+
+Lemma handlers_multiset_lemma : forall W, wf_world W -> forall (hs : list (list sop)) required,
+  Permutation (uncached_subscriptions W (map (run_reg W) hs) required None)
+              (flat_map (fun h => map snd (filter (fun e => req_applicable W required (fst (fst e))
+                                                          && match snd (fst e) with None => true | Some _ => false end)
+                                                 (run_led h))) hs).
+Proof.
+  intros W HW hs required. apply (subs_multiset_lemma W HW hs required None). exact I.
+Qed.
